@@ -24,6 +24,9 @@ import Np.Model.ExprPow
 import Np.Model.DType
 import Np.Model.ReduceFns
 import Np.Model.ShapeFns
+import Np.Model.IndexFns
+import Np.Model.SelectFns
+import Np.Model.BilinearFns
 /-! line-protocol driver: one JSON case per line on stdin, the model's answer per line on stdout -/
 open Lean Np Np.Shape
 
@@ -424,6 +427,75 @@ def runCase (j : Json) : E Json := do
     | "concatenate" => pure (showN (ShapeFns.concatF (← jNatRows (← j.getObjVal? "shapes")) (← nat "axis")))
     | "stack" => pure (showN (ShapeFns.stackF (← jNatRows (← j.getObjVal? "shapes")) (← nat "axis")))
     | _ => throw s!"unknown shape function {fn}"
+  | "indexfn" =>
+    -- basic indexing, split family, diag, atleast_nd, broadcast_to by the proved maps of Np/Model/IndexFns.lean
+    let fn ← (← j.getObjVal? "fn").getStr?
+    let nat := fun (k : String) => do jNat (← j.getObjVal? k)
+    let shape ← jNats (← j.getObjVal? "shape")
+    let optInt := fun (x : Json) => match x with | .null => (pure none : E (Option Int)) | _ => do pure (some (← x.getInt?))
+    let none_ := Json.mkObj [("status", "ok"), ("kind", "none")]
+    let show1 := fun (r : Option (List Nat × List Nat)) => match r with
+      | some (s, idx) => Json.mkObj [("status", "ok"), ("kind", "gather"), ("shape", toJson s), ("idx", toJson idx)]
+      | none => none_
+    let showPieces := fun (r : Option (List (List Nat × List Nat))) => match r with
+      | some ps => Json.mkObj [("status", "ok"), ("kind", "pieces"),
+          ("pieces", Json.arr (ps.map fun q => Json.mkObj [("shape", toJson q.1), ("idx", toJson q.2)]).toArray)]
+      | none => none_
+    match fn with
+    | "basic" => do
+      let items ← (← jList (← j.getObjVal? "items")).mapM fun it => do
+        match it with
+        | .str "newaxis" => pure IndexFns.Item.newaxis
+        | .str "ellipsis" => pure IndexFns.Item.ellipsis
+        | _ =>
+          match it.getObjVal? "int" with
+          | .ok v => do pure (IndexFns.Item.int (← v.getInt?))
+          | .error _ => do
+            match ← jList (← it.getObjVal? "slice") with
+            | [a, b, c] => do pure (IndexFns.Item.slice (← optInt a) (← optInt b) (← c.getInt?))
+            | _ => throw "bad slice"
+      pure (show1 (IndexFns.basicIndexF shape items))
+    | "split" => pure (showPieces (IndexFns.splitF shape (← nat "axis") (← jNats (← j.getObjVal? "sections"))))
+    | "array_split" => pure (showPieces (IndexFns.arraySplitF shape (← nat "axis") (← nat "k")))
+    | "split_equal" => pure (showPieces (IndexFns.splitEqualF shape (← nat "axis") (← nat "k")))
+    | "atleast" => pure (show1 (IndexFns.atleastF (← nat "d") shape))
+    | "broadcast_to" => pure (show1 (IndexFns.broadcastToF shape (← jNats (← j.getObjVal? "target"))))
+    | "diag" => do
+      match IndexFns.diagF shape (← (← j.getObjVal? "k").getInt?) with
+      | some (s, idx) => pure (Json.mkObj [("status", "ok"), ("kind", "gatherfill"), ("shape", toJson s),
+          ("idx", Json.arr (idx.map fun o => match o with | some x => toJson x | none => Json.null).toArray)])
+      | none => pure none_
+    | _ => throw s!"unknown index function {fn}"
+  | "selectfn" =>
+    let fn ← (← j.getObjVal? "fn").getStr?
+    let showN := fun (r : Option (List Nat × List (Nat × Nat))) => match r with
+      | some (s, idx) => Json.mkObj [("status", "ok"), ("kind", "gatherN"), ("shape", toJson s),
+          ("idx", Json.arr (idx.map fun p => Json.arr #[toJson p.1, toJson p.2]).toArray)]
+      | none => Json.mkObj [("status", "ok"), ("kind", "none")]
+    match fn with
+    | "where" => do
+      let cond ← (← jList (← j.getObjVal? "cond")).mapM fun b => b.getBool?
+      pure (showN (SelectFns.whereF cond (← jNats (← j.getObjVal? "sc")) (← jNats (← j.getObjVal? "sx")) (← jNats (← j.getObjVal? "sy"))))
+    | "choose" => pure (showN (SelectFns.chooseF (← jNats (← j.getObjVal? "sel")) (← jNats (← j.getObjVal? "ss")) (← jNatRows (← j.getObjVal? "shapes"))))
+    | "full" =>
+      match SelectFns.fullF (← jNats (← j.getObjVal? "shape")) (← jNats (← j.getObjVal? "sv")) with
+      | some (s, idx) => pure (Json.mkObj [("status", "ok"), ("kind", "gather"), ("shape", toJson s), ("idx", toJson idx)])
+      | none => pure (Json.mkObj [("status", "ok"), ("kind", "none")])
+    | "hstack" => pure (showN (SelectFns.hstackF (← jNatRows (← j.getObjVal? "shapes"))))
+    | "vstack" => pure (showN (SelectFns.vstackF (← jNatRows (← j.getObjVal? "shapes"))))
+    | "dstack" => pure (showN (SelectFns.dstackF (← jNatRows (← j.getObjVal? "shapes"))))
+    | _ => throw s!"unknown select function {fn}"
+  | "bilineartable" =>
+    let fn ← (← j.getObjVal? "fn").getStr?
+    let showP := fun (r : Option (List Nat × BilinearFns.Pairs)) => match r with
+      | some (s, ps) => Json.mkObj [("status", "ok"), ("kind", "pairs"), ("shape", toJson s),
+          ("pairs", Json.arr (ps.map fun p => Json.arr #[toJson p.1, toJson p.2]).toArray)]
+      | none => Json.mkObj [("status", "ok"), ("kind", "none")]
+    match fn with
+    | "outer" => pure (showP (BilinearFns.outerP (← jNats (← j.getObjVal? "sa")) (← jNats (← j.getObjVal? "sb"))))
+    | "inner" => pure (showP (BilinearFns.innerVecP (← jNat (← j.getObjVal? "n"))))
+    | "matmul" => pure (showP (BilinearFns.matmulAnyP (← jNats (← j.getObjVal? "sa")) (← jNats (← j.getObjVal? "sb"))))
+    | _ => throw s!"unknown bilinear function {fn}"
   | "bilinear" =>
     let a ← parseArr (← j.getObjVal? "a")
     let b ← parseArr (← j.getObjVal? "b")
